@@ -230,4 +230,26 @@ Theorem C06_bounded_partial :
     length toks <= C + (N.to_nat MAX_PLACEABLES + 1) * (C + 8).
 Proof. intros fuel toks sc H. eapply write_pattern_bounds; eassumption. Qed.
 
+(* PARTIAL (bytes): if every piece that was written — a (transformed) text element, a printed value,
+   a part of a `{reference}` fallback, an isolation mark — has at most W bytes, the text has at most
+   W x (C + (MAX_PLACEABLES + 1) x (C + 8)) bytes.  The hypothesis is on the pieces of THIS output,
+   not yet on the inputs: deriving W from "every argument string / function result / formatter
+   output <= F bytes, every minimum_fraction_digits <= K, transform lengthens by at most a factor
+   T" needs one more invariant over all values in flight (in particular strings resolved from
+   patterns in call-argument position can be printed again through term parameters) and was not
+   attempted.  Without a bound on minimum_fraction_digits no W exists (D11). *)
+Theorem C06_bounded_bytes_partial :
+  forall W fuel toks sc,
+    write_pattern overflow_checks call_function transform formatter rules custom_as_string
+      unescape_write unescape_to_string f64_from_str b args fuel p intls = Done (toks, sc) ->
+    Forall (fun t => length (token_bytes t) <= W) toks ->
+    length (flatten toks) <= W * (C + (N.to_nat MAX_PLACEABLES + 1) * (C + 8)).
+Proof.
+  intros W fuel toks sc H HW.
+  pose proof (C06_bounded_partial fuel toks sc H) as Hn.
+  pose proof (flatten_length_le W toks HW) as Hb.
+  assert (W * length toks <= W * (C + (N.to_nat MAX_PLACEABLES + 1) * (C + 8))) by (apply Nat.mul_le_mono_l; exact Hn).
+  eapply Nat.le_trans; eassumption.
+Qed.
+
 End C06_bounds.
